@@ -38,6 +38,9 @@ def run(ctx):
     ctx.do(rule_newest)
     ctx.do(rule_all_versions_kept)
     ctx.do(rule_save_load)
+    from .pitfalls import rule_groupby_sorted, rule_single_use_iterators
+    ctx.do(rule_groupby_sorted, "C11.iterator-pitfalls", ("stix2.datastore",))
+    ctx.do(rule_single_use_iterators, "C11.iterator-pitfalls", ("stix2.datastore",))
     from .hidden_state import rule_no_hidden_state
     ctx.do(rule_no_hidden_state, "C11.history-independence")
 
